@@ -44,6 +44,37 @@ def stores_of(r):
     return out
 
 
+def wake_rule(chk, rid, cfg, rs, IF, file):
+    """wake-up condition, value level: run_state := Run is stored exactly on the paths whose condition says that an
+    *enabled* request is pending on entry ((IF & IE) != 0), and on no path where (IF & IE) == 0"""
+    from .. import bvproof as _bp
+    IE = S(8, 'core.memory.io.interrupt_mask', ('field', 'devices::io::IO', 'interrupt_mask', 'u8'))
+    pend = O(8, 'and', O(8, 'and', IF, IE), C(8, 0x1f))
+    wbad = None
+    nw = 0
+    for i, r in enumerate(rs):
+        if r.status != 'ok':
+            continue
+        woke = any(s_[0] == 'run_state' for s_ in stores_of(r))
+        zero = O(1, 'eq', pend, C(8, 0))
+        cv = r.state.env.const_of(zero)
+        if cv is None:
+            pv = _bp.equal_under(zero, C(1, 0 if woke else 1), r.state.env, 1)
+            cv = (0 if woke else 1) if pv is True else None
+        nw += 1
+        if woke and cv != 0:
+            wbad = wbad or ('path %d wakes the CPU (run_state := Run) although no enabled request need be pending '
+                            '(IF & IE may be 0 on it)' % i)
+        elif not woke and cv != 1:
+            wbad = wbad or 'path %d leaves run_state alone although an enabled request may be pending' % i
+    if wbad:
+        chk.fail(rid, cfg + ':wake-condition', wbad, file, None)
+    elif nw:
+        chk.ok(rid, cfg + ':wake-condition', sample={'run_state := Run iff': '(IF & IE & 0x1f) != 0 on entry', 'paths': nw})
+    else:
+        chk.error('%s: no completing path of handle_interrupt' % rid)
+
+
 def ime_of(r):
     """master-enable state assumed by the path: 'Enabled' | 'other' | None"""
     for d in r.state.decisions:
@@ -129,6 +160,7 @@ def run(ctx, chk):
                     chk.fail(rule, k2, '%s (path %s)' % (fails[0][1], fails[0][3]), file, None)
                 else:
                     chk.ok(rule, k2, sample=res[0][2])
+        wake_rule(chk, 'C07.1', cfg, rs, IF, file)
         ime_off = [r for r in rs if r.status == 'ok' and len(stores_of(r)) == 1]
         if not ime_off:
             chk.fail('C07.2', cfg + ':none', 'no path leaves the interrupt pending when the master enable is off', file, None)
